@@ -406,7 +406,8 @@ def weightedSums (n : Nat) (offs : List Nat) (lf : List (WPx Rat)) (w : List (Op
   let lw := timesOuter wv lf
   match v with
   | .diag2 => marginalizeAt lw k
-  | _ => rowsumAt n lw k
+  -- `rowsumAt n lw k`, evaluated on the pixels that touch `k` only (theorem `rowsumTouch_eq`)
+  | _ => rowsumAt n (lw.filter fun p => p.i == k || p.j == k) k
 
 structure DomainVerdict where
   lo : Nat
